@@ -5,5 +5,12 @@ func moreGens() []struct {
 	name string
 	fn   func() string
 } {
-	return nil
+	return []struct {
+		name string
+		fn   func() string
+	}{
+		{"Encoding.v", genEncoding},   // C18
+		{"Conv.v", genConv},           // C02
+		{"EdiConsts.v", genEdiConsts}, // C07
+	}
 }
